@@ -650,6 +650,11 @@ func queueInterleaveCase(c *Ctx, rng *rand.Rand) {
 func queueCase(c *Ctx, rng *rand.Rand) {
 	w := &queueWorld{c: c, rng: rng, outOfEnvelope: map[string]bool{}, maxSeen: map[string]int64{}}
 	w.ctx = sim.NewContext()
+	defer func() {
+		for range w.ctx.Sim().Drifted() {
+			c.Count("observed.cache-object-written-through") // code under test modified an object it got from a lister
+		}
+	}()
 	w.clk = fakeclock.NewFakeClock(sim.VirtualBase.Add(time.Duration(rng.Intn(1000)) * time.Second))
 	ktime.Clock = w.clk
 	w.api = sim.NewSimAPI(w.clk)
